@@ -225,6 +225,8 @@ class TCPRegistryServer(RegistryServer):
         return logging.getLogger("REGSRV/TCP/%d" % (self.port,))
 
     def _recv(self):
+        while self._connected_sockets:  # requests are served one at a time: these got no reply and never will
+            self._connected_sockets.popitem()[1].close()
         sock2, _ = self.sock.accept()
         addrinfo = sock2.getpeername()
         sock2.settimeout(self.TIMEOUT)  # a client that sends nothing must not block the registry
